@@ -308,7 +308,10 @@ def cases(draw):
     elif op in ("multiwalk", "bulkwalk"):
         # pairwise disjoint roots: distinct heads below a common prefix
         pre = draw(long_oid())[:8]
-        heads = draw(st.lists(st.integers(0, 40), min_size=1, max_size=4, unique=True))
+        # (sub-identifiers of different encoded widths: 1, 2, 3 and 5 octets)
+        heads = draw(st.lists(st.one_of(st.integers(0, 40), st.sampled_from([127, 128, 300, 2636, 16383, 16384, 30065, 2 ** 21,
+                                                                             2 ** 28, 2 ** 32 - 1])),
+                              min_size=1, max_size=4, unique=True))
         case["oids"] = [pre + [h] for h in heads]
     elif op in ("set", "multiset"):
         n = 1 if op == "set" else draw(st.integers(1, 6))
